@@ -53,8 +53,13 @@ type c11Stats struct {
 	SampleRuns     []json.RawMessage `json:"sample_runs"`
 }
 
+// goraceEnv: environment of every C11 simulation process. GOMAXPROCS=1: tasks
+// run one at a time anyway (same throughput, measured), and with a single P
+// the per-P caches of sync.Pool behave the same in every execution - a pooled
+// buffer in library code would otherwise be handed out or not depending on
+// which P a task goroutine happened to run on, and replays would be flaky.
 func goraceEnv(prefix string) []string {
-	return []string{"GORACE=log_path=" + prefix + " halt_on_error=0 history_size=7 exitcode=0"}
+	return []string{"GORACE=log_path=" + prefix + " halt_on_error=0 history_size=7 exitcode=0", "GOMAXPROCS=" + gomaxprocs()}
 }
 
 func checkC11(o options) int {
@@ -351,4 +356,11 @@ func replayC11(o options) int {
 		return 1
 	}
 	return 2
+}
+
+func gomaxprocs() string {
+	if v := os.Getenv("VERIF_GOMAXPROCS"); v != "" {
+		return v
+	}
+	return "1"
 }
